@@ -226,6 +226,10 @@ func (r DenseInt8Vector) MdotV(a ConstMatrix, b ConstVector) Vector {
     panic("matrix/vector dimensions do not match!")
   }
   if n == 0 || m == 0 {
+    // empty sum
+    for i := 0; i < r.Dim(); i++ {
+      r.AT(i).Reset()
+    }
     return r
   }
   if r.AT(0) == b.ConstAt(0) {
@@ -247,6 +251,10 @@ func (r DenseInt8Vector) MDOTV(a *DenseInt8Matrix, b DenseInt8Vector) Vector {
     panic("matrix/vector dimensions do not match!")
   }
   if n == 0 || m == 0 {
+    // empty sum
+    for i := 0; i < r.Dim(); i++ {
+      r.AT(i).Reset()
+    }
     return r
   }
   if r.AT(0) == b.AT(0) {
@@ -270,6 +278,10 @@ func (r DenseInt8Vector) VdotM(a ConstVector, b ConstMatrix) Vector {
     panic("matrix/vector dimensions do not match!")
   }
   if n == 0 || m == 0 {
+    // empty sum
+    for i := 0; i < r.Dim(); i++ {
+      r.AT(i).Reset()
+    }
     return r
   }
   if r.AT(0) == a.ConstAt(0) {
@@ -291,6 +303,10 @@ func (r DenseInt8Vector) VDOTM(a DenseInt8Vector, b *DenseInt8Matrix) Vector {
     panic("matrix/vector dimensions do not match!")
   }
   if n == 0 || m == 0 {
+    // empty sum
+    for i := 0; i < r.Dim(); i++ {
+      r.AT(i).Reset()
+    }
     return r
   }
   if r.AT(0) == a.ConstAt(0) {
